@@ -384,8 +384,8 @@ func genGogoNative(r *vlib.Rand, slot int) val {
 }
 
 type gogoSchemaGen struct {
-	n, armSlot int
-	std        schemaGen
+	n, armSlot, only int
+	std              schemaGen
 }
 
 func (sg *gogoSchemaGen) gen(r *vlib.Rand) val {
@@ -402,6 +402,11 @@ func (sg *gogoSchemaGen) gen(r *vlib.Rand) val {
 		sg.armSlot++
 		return genGogoNative(r, slot)
 	}
+	if sg.n%8 == 3 {
+		// a message type only gogo can handle (gogoonly.go), the three kinds in turn
+		sg.only++
+		return genGogoOnly(r, sg.only)
+	}
 	return genGogoNative(r, -1)
 }
 
@@ -413,7 +418,9 @@ func gogoSchemaStrVal(r *vlib.Rand, s string) val {
 		return v
 	}
 	var v val
-	switch r.Intn(3) {
+	switch r.Intn(4) {
+	case 3:
+		return gogoOnlyStrVal(r, s)
 	case 0:
 		v = gogoVal(&gogotypes.StringValue{Value: s, XXX_unrecognized: protowire.AppendString(protowire.AppendTag(nil, 9, protowire.BytesType), s)}, s)
 		v.pst.unknownTop, v.pst.unknownNodes = 1, 1
